@@ -43,9 +43,10 @@ def check_write_file(ctx, prop, obj, args=(), kind="text"):
         shutil.rmtree(d, ignore_errors=True)
 
 
-def check_read_file(ctx, prop, cls, content, args=(), read_arg=None, encoding="utf8", bom=None):
+def check_read_file(ctx, prop, cls, content, args=(), read_arg=None, encoding="utf8", bom=None, crlf=None):
     """content: str or bytes as stored on disk; read_arg: what read() takes for the same content (default: derived).
-    bom: store the text with a UTF-8 byte order mark (as Windows editors and osu! itself save files); default: every fourth case."""
+    bom: store the text with a UTF-8 byte order mark (as Windows editors and osu! itself save files); default: every fourth case.
+    crlf: store the text with \\r\\n line ends (as the games themselves save files); default: every fourth case of text content."""
     mon = "fileio.read_file"
     d = tempfile.mkdtemp(prefix="rv_io_")
     if bom is None:
@@ -53,6 +54,10 @@ def check_read_file(ctx, prop, cls, content, args=(), read_arg=None, encoding="u
     try:
         path = os.path.join(d, "in.bin")
         raw = content if isinstance(content, bytes) else content.encode(encoding)
+        if crlf is None:
+            crlf = isinstance(content, str) and (ctx.cur_k or 0) % 4 == 2
+        if crlf:
+            raw = raw.replace(b"\r\n", b"\n").replace(b"\n", b"\r\n")
         if bom:
             raw = b"\xef\xbb\xbf" + raw
         with open(path, "wb") as f:
@@ -66,13 +71,13 @@ def check_read_file(ctx, prop, cls, content, args=(), read_arg=None, encoding="u
             b = cls.read_file(path, *args)
         except Exception as e:
             return ctx.violate(prop, mon, "raises", f"{cls.__name__}.read_file raised {type(e).__name__}: {e} although read() of the same content succeeded",
-                               dict(tb=core.short_tb(e), bom=bom), dict(cls=cls.__name__, byte_order_mark=bool(bom)))
+                               dict(tb=core.short_tb(e), bom=bom), dict(cls=cls.__name__, byte_order_mark=bool(bom), crlf=bool(crlf)))
         with ctx.quiet():
             diff = diff_snapshots(snapshot(a), snapshot(b))
         if diff:
-            return ctx.violate(prop, mon, "differs_from_read", f"{cls.__name__}.read_file gives a different chart than read() of the same content: {diff}", dict(diff=diff, bom=bom), dict(cls=cls.__name__, byte_order_mark=bool(bom)))
+            return ctx.violate(prop, mon, "differs_from_read", f"{cls.__name__}.read_file gives a different chart than read() of the same content: {diff}", dict(diff=diff, bom=bom), dict(cls=cls.__name__, byte_order_mark=bool(bom), crlf=bool(crlf)))
         ctx.held(mon, cls.__name__)
-        ctx.state("fileio.read_file.case", (cls.__name__, bool(bom)))
+        ctx.state("fileio.read_file.case", (cls.__name__, bool(bom), bool(crlf)))
     finally:
         shutil.rmtree(d, ignore_errors=True)
 
